@@ -8,9 +8,9 @@
    parse_no_crash (Proofs/ParseDeclTotal.v) and the lexer fact C01_source_long_ok. *)
 From Coq Require Import List NArith ZArith.
 From Falco Require Gen.TokenTypes Model.ParseBase Model.Ast Model.ParseDecl Proofs.ParseExprTotal.
-From Falco Require Import Base.Res Base.Bytes Base.Utf8 Gen.Tokens Model.Lex Model.Pump Model.LexSpec Model.LexParse
+From Falco Require Import Base.Res Base.Bytes Base.Utf8 Gen.Tokens Gen.LexOps Model.Lex Model.LexOps Model.Pump Model.LexSpec Model.LexParse
   Proofs.LexTables Proofs.LexProgress Proofs.LexToken Proofs.PumpTotal Proofs.LexView Proofs.LexLocated Proofs.LexExtra
-  Proofs.LexOpen Proofs.LexParse Proofs.LexTheorems Proofs.LexExamples Proofs.LexParseExamples.
+  Proofs.LexOpen Proofs.LexOps Proofs.LexParse Proofs.LexTheorems Proofs.LexExamples Proofs.LexParseExamples.
 Import ListNotations.
 
 (* Totality: for EVERY byte string the token loop (NextToken until the first EOF), run with the
@@ -65,6 +65,17 @@ Theorem C01_eof_stable :
   forall n st, ch st = 0%N -> peeks st = [] -> 1 <= n -> wf st ->
   exists e st1, next_token n st = OK (e, st1) /\ is_eof e = true /\ next_token n st1 = OK (e, st1).
 Proof. exact eof_stable. Qed.
+
+(* PeekToken is coherent with NextToken: after PeekToken returned t, NextToken returns t and
+   reaches the state NextToken alone would have reached; peeking twice changes nothing. *)
+Theorem C01_peek_then_next :
+  forall n st t st1, peek_token n st = OK (t, st1) ->
+  exists st2, next_token n st1 = OK (t, st2) /\ next_token n st = OK (t, st2).
+Proof. exact peek_then_next. Qed.
+
+Theorem C01_peek_idempotent :
+  forall n st t st1, peek_token n st = OK (t, st1) -> peek_token n st1 = OK (t, st1).
+Proof. exact peek_idempotent. Qed.
 
 (* The parser's token pump: over ANY token list followed by a repeated EOF token, ReadPeek
    (LF / COMMENT / C! W! / pragma skipping) returns and the pump reaches EOF. *)
@@ -131,6 +142,30 @@ Proof. exact parse_error_located. Qed.
 Theorem C01_keywords_documented : keywords = keywords_ref.
 Proof. exact keywords_documented. Qed.
 
+(* T tie: the character classes (isLetter, isDigit, isDecimalDigit, isHexDigit,
+   isLongStringDelimiter) and the loop conditions of skipWhitespace, readString and the identifier
+   tail, regenerated from the Go boolean expressions, are the documented ones for EVERY rune. The
+   model is built on the regenerated functions. *)
+Theorem C01_char_classes_documented : forall r : rune,
+  is_letter r = ref_letter r /\ is_decimal r = ref_decimal r /\ is_digit r = ref_digit r /\
+  is_hex r = ref_hex r /\ is_delim r = ref_delim r /\ is_space r = ref_space r /\
+  in_string r = ref_in_string r /\ is_ident_cont r = ref_ident_cont r.
+Proof. exact char_classes_documented. Qed.
+
+(* T tie: the `switch l.char` of NextToken, regenerated as a decision table (character, look-ahead
+   characters, token type, spelling), is the documented operator / punctuation table (special
+   actions - strings, comments, long strings, EOF - compared by position only) ... *)
+Theorem C01_operator_table_documented :
+  map (fun p => (fst p, erase (snd p))) op_table = ref_op_table.
+Proof. exact op_table_documented. Qed.
+
+(* ... and the model follows the regenerated table: on every entry free of special actions
+   (22 of 27), lex_char is the table interpreter. *)
+Theorem C01_lex_char_follows_table :
+  forall c tree, In (c, tree) op_table -> simple tree = true ->
+  forall n st, ch st = c -> lex_char n st = interp tree st (line st) (idx st).
+Proof. exact lex_char_follows_table. Qed.
+
 Theorem C01_token_types_distinct : nodup_b all_types = true /\ str_in [] all_types = false.
 Proof. exact types_distinct. Qed.
 
@@ -143,6 +178,8 @@ Print Assumptions C01_lex_ends_with_eof.
 Print Assumptions C01_lex_located.
 Print Assumptions C01_position_unique.
 Print Assumptions C01_eof_stable.
+Print Assumptions C01_peek_then_next.
+Print Assumptions C01_peek_idempotent.
 Print Assumptions C01_pump_total.
 Print Assumptions C01_pump_no_crash.
 Print Assumptions C01_pump_source_returns.
@@ -153,4 +190,7 @@ Print Assumptions C01_pump_tokens_located.
 Print Assumptions C01_parse_eof_located.
 Print Assumptions C01_parse_error_located.
 Print Assumptions C01_keywords_documented.
+Print Assumptions C01_char_classes_documented.
+Print Assumptions C01_operator_table_documented.
+Print Assumptions C01_lex_char_follows_table.
 Print Assumptions C01_token_types_distinct.
